@@ -1,6 +1,6 @@
 (* C19 property theorems.  Nothing but statements closed by `exact`, a pin, and Print Assumptions. *)
 From ZV.Common Require Import Base Run.
-From ZV.C19 Require Import Model ProofsBytes ProofsMv ProofsCrash.
+From ZV.C19 Require Import Model ProofsBytes ProofsMv ProofsCrash ProofsRo.
 Open Scope N_scope.
 
 (* a vector synced from content xs (capacity cap, arbitrary bytes in the unused capacity) reopens as exactly xs *)
@@ -86,6 +86,16 @@ Check mv_set_len_safe :
     mv_open es (resize (mv_image es xs cap tail) n) = None \/
     mv_open es (resize (mv_image es xs cap tail) n) = Some (nlen xs, xs).
 Print Assumptions mv_set_len_safe.
+
+(* ZReorderMap: for every value sequence the builder accepts (values <= 0x7FFFFFFFFF, either direction), the file
+   written by push*/finish - run detection, 5-byte records, LEB128 run lengths - is accepted by open (header and
+   record validation) and iteration yields exactly the pushed values *)
+Theorem ro_roundtrip :
+  forall vs neg, Forall (fun v => v < V39) vs -> nlen vs <= RO_MAXSIZE -> ro_decode (ro_encode vs neg) = Some vs.
+Proof. exact ro_roundtrip_proof. Qed.
+Check ro_roundtrip :
+  forall vs neg, Forall (fun v => v < V39) vs -> nlen vs <= RO_MAXSIZE -> ro_decode (ro_encode vs neg) = Some vs.
+Print Assumptions ro_roundtrip.
 
 (* the protocol of the pinned tree (rewrite in place, header-only validation) fails the property; both repairs
    are needed: the same image is refused by the fixed open *)
